@@ -77,6 +77,8 @@ def _closure_inputs(cx: Cx, fn: FunctionInfo, ps: list[str]) -> list[str]:
     for pn in ps:
         exposed = False
         for a in got.get(pn, []):
+            if isinstance(a, ast.Call) and isinstance(a.func, ast.Name) and a.func.id == "Converter":
+                continue  # constructed in the call itself
             if isinstance(a, ast.Name) and a.id not in {p.name for p in parent.params}:
                 vals = [ev.b for ev, _ in own.s.walk() if ev.kind == "bind" and ev.a == a.id and isinstance(ev.b, tuple)]
                 tags = [own.tag(v) for v in vals]
@@ -270,6 +272,12 @@ class Own:
                     return None
                 if base[0] == "CB" and name == "get_record":
                     return ("B", base[1])
+                if base[0] == "CB":
+                    ci = self.cx.model.classes.get("curies.api.Converter")
+                    m = self.cx.model.find_method(ci, name) if ci is not None else None
+                    st = returns_state(self.cx, m) if m is not None else None
+                    if st is not None:
+                        return ("ST", base[1], st)
                 if base[0] == "CF" and name == "get_record":
                     return base[1]
                 if base[0] == "E" and name in ("pop", "get", "popitem", "__getitem__"):
@@ -308,6 +316,50 @@ class Own:
 
 
 _THROUGH: dict = {}
+_STATE: dict = {}
+
+
+def returns_state(cx: Cx, m: FunctionInfo) -> str | None:
+    """Does the container-returning Converter method ``m`` hand out an object that the converter keeps - an
+    attribute itself, an element of a container attribute that holds containers (a cache), or a container it has
+    just stored there?  Returns the attribute's name.  (A caller that then changes the result changes the
+    converter.)"""
+    key = (id(cx.model), m.qualname)
+    if key in _STATE:
+        return _STATE[key]
+    _STATE[key] = None
+    r = m.node.returns
+    if r is None or not m.self_name or m.is_classmethod:
+        return None
+    ann = ast.unparse(r)
+    if not any(k in ann for k in ("set", "Set", "list", "List", "dict", "Dict", "Mapping", "Sequence", "Collection")):
+        return None
+    from ..rules import TABLES
+
+    s = cx.summary(m)
+    me = ("param", m.self_name)
+    stored: dict = {}
+    for ev, _ in s.walk():
+        if ev.kind == "store" and isinstance(ev.b, tuple):
+            root = ev.a
+            while op(root) in ("attr", "item") and root[1] != me:
+                root = root[1]
+            if op(root) in ("attr", "item") and root[1] == me and op(root) == "attr":
+                stored.setdefault(ev.b, root[2])
+    out = None
+    for t, _ in s.returns():
+        if op(t) == "attr" and t[1] == me and t[2] not in ("delimiter",):
+            out = t[2]
+        elif op(t) == "item" and op(t[1]) == "attr" and t[1][1] == me and t[1][2] not in TABLES:
+            out = t[1][2]
+        elif op(t) == "call" and op(t[1]) == "attr" and t[1][2] in ("get", "setdefault", "pop") and op(t[1][1]) == "attr" and t[1][1][1] == me and t[1][1][2] not in TABLES:
+            out = t[1][1][2]
+        elif op(t) in ("new", "comp", "phi") and t in stored:
+            out = stored[t]
+        if out is not None:
+            break
+    _STATE[key] = out
+    return out
 
 
 def _passes_through(cx: Cx, callee: FunctionInfo) -> set:
